@@ -10,7 +10,7 @@ LETTERS = string.ascii_letters
 
 
 # ----------------------------------------------------------------------------- measuring
-def _einsum_dense(ts, out_inds, exponent=0.0):
+def _einsum_dense(ts, out_inds, exponent=0.0, absolute=False):
     labels = {}
 
     def lab(ix):
@@ -19,7 +19,10 @@ def _einsum_dense(ts, out_inds, exponent=0.0):
         return labels[ix]
 
     eq = ",".join("".join(lab(ix) for ix in t.inds) for t in ts) + "->" + "".join(lab(ix) for ix in out_inds)
-    val = np.einsum(eq, *[np.asarray(t.data).astype(complex) for t in ts])
+    if absolute:
+        val = np.einsum(eq, *[np.abs(np.asarray(t.data)).astype(float) for t in ts])
+    else:
+        val = np.einsum(eq, *[np.asarray(t.data).astype(complex) for t in ts])
     if exponent:
         val = val * 10.0 ** float(exponent)
     return val
@@ -31,20 +34,22 @@ def site_tensors(tn, sites=None):
     return sites, [list(tn.select_tensors(tn.site_tag(i))) for i in sites]
 
 
-def dense_vec(p):
-    """dense vector of an MPS-like network (C order over sites 0..L-1) from its tensors"""
+def dense_vec(p, absolute=False):
+    """dense vector of an MPS-like network (C order over sites 0..L-1) from its tensors;
+    absolute=True: the same contraction of the entrywise absolute values (a bound on the sum of the
+    magnitudes of all terms: the scale of the rounding error of any evaluation order)"""
     sites, groups = site_tensors(p)
     ts = [t for g in groups for t in g]
-    return _einsum_dense(ts, [p.site_ind(i) for i in sites], getattr(p, "exponent", 0.0)).reshape(-1)
+    return _einsum_dense(ts, [p.site_ind(i) for i in sites], getattr(p, "exponent", 0.0), absolute).reshape(-1)
 
 
-def dense_op(A):
+def dense_op(A, absolute=False):
     """dense matrix (rows = upper indices, columns = lower indices; present sites in order)"""
     sites, groups = site_tensors(A)
     ts = [t for g in groups for t in g]
     up = [A.upper_ind(i) for i in sites]
     lo = [A.lower_ind(i) for i in sites]
-    val = _einsum_dense(ts, up + lo, getattr(A, "exponent", 0.0))
+    val = _einsum_dense(ts, up + lo, getattr(A, "exponent", 0.0), absolute)
     d = int(np.prod(val.shape[: len(sites)])) if sites else 1
     return val.reshape(d, -1)
 
